@@ -120,10 +120,508 @@ def gen_irenums(tools):
     return [write("Gen/IrEnums.v", "\n".join(out) + "\n")]
 
 
-GENERATORS = {"lex": gen_lex, "irenums": gen_irenums}
+# ------------------------------------------------------------------ layout (C07)
+
+LAYOUT_ASSIGN_LHS = {
+    "lowerStruct": ["align", "size", "maxAlign", "offset", "structSize", "explicitAlign", "explicitSize"],
+    "typeAlignmentAndSize": ["w", "scalarWidth", "vecAlignFactor", "alignment", "size", "rowsAlignFactor", "colAlign",
+                             "stride", "maxMemberAlign"],
+    "resolveType": ["stride"],
+}
+
+
+def gen_layout(tools):
+    """C07: leaf switch tables and the arithmetic statements of the lowerer's layout code."""
+    lw = "wgsl/internal/lower/lower.go"
+    (irva, hlva, a_ls, a_tas, a_rt, f_align, f_size, a_pack, a_spv, a_hsub) = extract(tools, [
+        {"kind": "switchmap", "file": "ir/type_size.go", "name": "vectorAlignment"},
+        {"kind": "switchmap", "file": "hlsl/internal/codegen/storage.go", "name": "alignmentFromVectorSize"},
+        {"kind": "assigns", "file": lw, "name": "lowerStruct", "recv": "Lowerer"},
+        {"kind": "assigns", "file": lw, "name": "typeAlignmentAndSize", "recv": "Lowerer"},
+        {"kind": "assigns", "file": lw, "name": "resolveType", "recv": "Lowerer"},
+        {"kind": "funcsrc", "file": lw, "name": "getAlignAttribute"},
+        {"kind": "funcsrc", "file": lw, "name": "getSizeAttribute"},
+        {"kind": "assigns", "file": "msl/internal/codegen/types.go", "name": "shouldPackMember", "recv": "Writer"},
+        {"kind": "assigns", "file": "spirv/internal/codegen/backend.go", "name": "emitStructMemberDecorations", "recv": "Backend"},
+        {"kind": "assigns", "file": "hlsl/internal/codegen/storage.go", "name": "computeSubAccess", "recv": "Writer"},
+    ])
+
+    def table(rows, keymap):
+        out = []
+        for k, v in rows:
+            k = k.replace("ir.", "")
+            if k not in keymap:
+                raise GenError("layout: unexpected switch case %r" % k)
+            try:
+                out.append("(%d, %d)" % (keymap[k], int(v)))
+            except ValueError:
+                raise GenError("layout: switch case %r returns non-literal %r" % (k, v))
+        return "[" + "; ".join(out) + "]"
+
+    def assigns(rows, fn):
+        keep = LAYOUT_ASSIGN_LHS[fn]
+        out = []
+        for kind, lhs, rhs in rows:
+            if kind == "assign" and lhs in keep:
+                out.append("(%s, %s)" % (coq_string(lhs), coq_string(" ".join(rhs.split()))))
+        return "[" + ";\n   ".join(out) + "]"
+
+    def pick(rows, names):
+        out = []
+        for kind, lhs, rhs in rows:
+            if kind == "assign" and lhs in names:
+                out.append("(%s, %s)" % (coq_string(lhs), coq_string(" ".join(rhs.split()))))
+        return "[" + ";\n   ".join(out) + "]"
+
+    def flat(src):
+        return coq_string(" ".join(src.split()))
+
+    vecmap = {"Vec2": 2, "Vec3": 3, "Vec4": 4, "default": 0}
+    nummap = {"2": 2, "3": 3, "4": 4, "default": 0}
+    out = ["From Coq Require Import List ZArith String.", "Import ListNotations.", "Open Scope Z_scope.", ""]
+    out.append("(* ir/type_size.go vectorAlignment: (vector size, result); key 0 = default *)")
+    out.append("Definition ir_vector_alignment_table : list (Z * Z) := %s.\n" % table(irva, vecmap))
+    out.append("(* hlsl storage.go alignmentFromVectorSize *)")
+    out.append("Definition hlsl_alignment_table : list (Z * Z) := %s.\n" % table(hlva, nummap))
+    out.append("(* lower.go lowerStruct: assignments to the layout variables, in source order *)")
+    out.append("Definition lower_struct_assigns : list (string * string) :=\n  %s%%string.\n" % assigns(a_ls, "lowerStruct"))
+    out.append("(* lower.go typeAlignmentAndSize *)")
+    out.append("Definition type_align_size_assigns : list (string * string) :=\n  %s%%string.\n" % assigns(a_tas, "typeAlignmentAndSize"))
+    out.append("(* lower.go resolveType (array stride) *)")
+    out.append("Definition resolve_type_assigns : list (string * string) :=\n  %s%%string.\n" % assigns(a_rt, "resolveType"))
+    out.append("(* lower.go getAlignAttribute / getSizeAttribute bodies (whitespace-normalised) *)")
+    out.append("Definition get_align_attribute_src : string := %s%%string." % flat(f_align))
+    out.append("Definition get_size_attribute_src : string := %s%%string.\n" % flat(f_size))
+    out.append("(* msl types.go shouldPackMember *)")
+    out.append("Definition msl_should_pack_assigns : list (string * string) :=\n  %s%%string.\n"
+               % pick(a_pack, ["lastOffset", "nextOffset", "isTight"]))
+    out.append("(* spirv backend.go emitStructMemberDecorations (MatrixStride) *)")
+    out.append("Definition spv_member_decoration_assigns : list (string * string) :=\n  %s%%string.\n"
+               % pick(a_spv, ["rowMul", "stride"]))
+    out.append("(* hlsl storage.go computeSubAccess *)")
+    out.append("Definition hlsl_sub_access_assigns : list (string * string) :=\n  %s%%string.\n"
+               % pick(a_hsub, ["stride", "scalarWidth", "rowStride"]))
+    return [write("Gen/LayoutTables.v", "\n".join(out))]
+
+
+# ------------------------------------------------------------------ C17: SPIR-V interface tables
+
+SPV_BACKEND = "spirv/internal/codegen/backend.go"
+
+
+def gen_spviface(tools):
+    """Switch tables of the SPIR-V back end that decide where things are bound (C17):
+    builtinToSPIRV, addressSpaceToStorageClass, stage -> execution model, interpolation ->
+    decoration, plus the numeric constants they name and the lowerer's WGSL builtin-name table."""
+    import re
+    consts, bsw, bsrc, ssw, epsrc, isrc, wb = extract(tools, [
+        {"kind": "consts", "file": "spirv/internal/codegen/spirv.go"},
+        {"kind": "switchmap", "file": SPV_BACKEND, "name": "builtinToSPIRV"},
+        {"kind": "funcsrc", "file": SPV_BACKEND, "name": "builtinToSPIRV"},
+        {"kind": "switchmap", "file": SPV_BACKEND, "name": "addressSpaceToStorageClass"},
+        {"kind": "funcsrc", "file": SPV_BACKEND, "name": "emitEntryPoints", "recv": "Backend"},
+        {"kind": "funcsrc", "file": SPV_BACKEND, "name": "addInterpolationDecorations", "recv": "Backend"},
+        {"kind": "map", "file": "wgsl/internal/lower/lower.go", "name": "builtinTable"},
+    ])
+    cmap = {}
+    for n, v, t in consts:
+        if t in ("BuiltIn", "StorageClass", "Decoration", "ExecutionModel", "ExecutionMode") and v.lstrip("-").isdigit():
+            cmap[n] = int(v)
+
+    def val(name, where):
+        name = name.strip()
+        if name not in cmap:
+            raise GenError("%s: %s is not a known SPIR-V constant" % (where, name))
+        return cmap[name]
+
+    def irname(case, where):
+        if not case.startswith("ir."):
+            raise GenError("%s: unexpected case label %s" % (where, case))
+        return case[3:]
+
+    out = ["From Coq Require Import List ZArith String.", "Import ListNotations.", "Local Open Scope Z_scope.",
+           "Local Open Scope string_scope.", ""]
+    out.append("(* spirv.go constants of type BuiltIn, StorageClass, Decoration, ExecutionModel, ExecutionMode *)")
+    out.append("Definition spv_consts : list (string * Z) := [\n" +
+               ";\n".join("  (%s, %d)" % (coq_string(n), v) for n, v in sorted(cmap.items())) + "].\n")
+    # builtinToSPIRV: straight-line return of every case, the default, and the Output branch of Position
+    rows = []
+    default = None
+    for case, res in bsw:
+        if case == "default":
+            default = val(res, "builtinToSPIRV default")
+        else:
+            rows.append((irname(case, "builtinToSPIRV"), val(res, "builtinToSPIRV")))
+    if default is None:
+        raise GenError("builtinToSPIRV: no default case")
+    mpos = re.search(r"case ir\.BuiltinPosition:\s*if storageClass == StorageClassOutput \{\s*return (\w+)\s*\}\s*return (\w+)", bsrc)
+    if not mpos:
+        raise GenError("builtinToSPIRV: the BuiltinPosition case no longer has the shape `if storageClass == StorageClassOutput {return X}; return Y`")
+    out.append("(* builtinToSPIRV: ir.BuiltinValue constant name -> value returned (for BuiltinPosition: outside the Output branch) *)")
+    out.append("Definition builtin_switch : list (string * Z) := [\n" + ";\n".join("  (%s, %d)" % (coq_string(n), v) for n, v in rows) + "].")
+    out.append("Definition builtin_default : Z := %d." % default)
+    out.append("Definition builtin_position_output : Z := %d." % val(mpos.group(1), "builtinToSPIRV position"))
+    out.append("Definition builtin_position_other : Z := %d.\n" % val(mpos.group(2), "builtinToSPIRV position"))
+    rows = []
+    for case, res in ssw:
+        if case == "default":
+            continue
+        rows.append((irname(case, "addressSpaceToStorageClass"), val(res.split(",")[0], "addressSpaceToStorageClass")))
+    out.append("(* addressSpaceToStorageClass *)")
+    out.append("Definition space_switch : list (string * Z) := [\n" + ";\n".join("  (%s, %d)" % (coq_string(n), v) for n, v in rows) + "].\n")
+    rows = re.findall(r"case ir\.(Stage\w+):\s*execModel = (\w+)", epsrc)
+    if not rows:
+        raise GenError("emitEntryPoints: stage -> execModel switch not found")
+    out.append("(* emitEntryPoints: stage -> execution model *)")
+    out.append("Definition stage_switch : list (string * Z) := [\n" +
+               ";\n".join("  (%s, %d)" % (coq_string(n), val(v, "emitEntryPoints")) for n, v in rows) + "].\n")
+    # execution modes added per stage
+    modes = []
+    for st, body in re.findall(r"case ir\.(Stage\w+):((?:(?!case ir\.Stage).)*?AddExecutionMode.*?)(?=case ir\.Stage|\Z)", epsrc, re.S):
+        modes.append((st, [val(x, "emitEntryPoints modes") for x in re.findall(r"AddExecutionMode\(funcID, (\w+)", body)]))
+    out.append("Definition stage_modes : list (string * list Z) := [\n" +
+               ";\n".join("  (%s, %s)" % (coq_string(n), zlist(v)) for n, v in modes) + "].\n")
+    rows = []
+    for name, body in re.findall(r"case ir\.((?:Interpolation|Sampling)\w+):(.*?)(?=case ir\.|\n\t\t\}|\Z)", isrc, re.S):
+        rows.append((name, [val(x, "addInterpolationDecorations") for x in re.findall(r"AddDecorate\(varID, (\w+)\)", body)]))
+    if len(rows) < 6:
+        raise GenError("addInterpolationDecorations: expected six cases, found %d" % len(rows))
+    out.append("(* addInterpolationDecorations: interpolation kind / sampling -> decorations added *)")
+    out.append("Definition interp_switch : list (string * list Z) := [\n" +
+               ";\n".join("  (%s, %s)" % (coq_string(n), zlist(v)) for n, v in rows) + "].")
+    mno = re.search(r"noDecorations := \(class == (\w+) && stage == ir\.(\w+)\) \|\|\s*\(class == (\w+) && stage == ir\.(\w+)\)", isrc)
+    if not mno:
+        raise GenError("addInterpolationDecorations: noDecorations condition not found")
+    out.append("Definition interp_suppressed : list (Z * string) := [(%d, %s); (%d, %s)]." % (
+        val(mno.group(1), "noDecorations"), coq_string(mno.group(2)), val(mno.group(3), "noDecorations"), coq_string(mno.group(4))))
+    mbs = re.search(r"if loc\.BlendSrc != nil \{\s*b\.builder\.AddDecorate\(varID, (\w+), \*loc\.BlendSrc\)", isrc)
+    if not mbs:
+        raise GenError("addInterpolationDecorations: blend_src decoration not found")
+    out.append("Definition blend_src_decoration : Z := %d.\n" % val(mbs.group(1), "blend_src"))
+    out.append("(* wgsl/internal/lower/lower.go builtinTable: WGSL builtin name -> ir.BuiltinValue constant *)")
+    out.append("Definition wgsl_builtin_table : list (string * string) := [\n" +
+               ";\n".join("  (%s, %s)" % (coq_string(k), coq_string(irname(v, "builtinTable"))) for k, v in wb) + "].")
+    return [write("Gen/SpvIfaceEnums.v", "\n".join(out) + "\n")]
+
+# ------------------------------------------------------------------ DXIL container / bitstream (C18)
+
+def gen_dxil(tools):
+    """coq/Gen/DxilConsts.v: abbreviation ids (writer.go), LLVM block ids and record codes
+    (serialize.go), shader kinds (module.go), the 64 MD5 steps, init state and BYPASS
+    sentinel (hash.go), the program-header stores of AddDXILPart/AddSTATPart, and the
+    FourCC / stage-kind values computed by the compiled package (dxildrive consts)."""
+    import re
+    wr, cont, ser, modc, md5src, retailsrc, bypass, dxilsrc, statsrc = extract(tools, [
+        {"kind": "consts", "file": "dxil/internal/bitcode/writer.go"},
+        {"kind": "consts", "file": "dxil/internal/container/container.go"},
+        {"kind": "consts", "file": "dxil/internal/module/serialize.go"},
+        {"kind": "consts", "file": "dxil/internal/module/module.go"},
+        {"kind": "funcsrc", "file": "dxil/internal/container/hash.go", "name": "md5Transform"},
+        {"kind": "funcsrc", "file": "dxil/internal/container/hash.go", "name": "retailMD5"},
+        {"kind": "list", "file": "dxil/internal/container/hash.go", "name": "BypassHash"},
+        {"kind": "funcsrc", "file": "dxil/internal/container/container.go", "name": "AddDXILPart", "recv": "Container"},
+        {"kind": "funcsrc", "file": "dxil/internal/container/stat.go", "name": "AddSTATPart", "recv": "Container"},
+    ])
+    if "dxildrive" not in tools:
+        raise GenError("gen_dxil needs the dxildrive tool")
+    rc, res, se = vcheck.jsonl_tool(tools["dxildrive"], ["consts"], [{"id": 0}])
+    if rc != 0 or not res or "fourcc" not in res[0]:
+        raise GenError("dxildrive consts failed: " + se[-500:])
+    live = res[0]
+    out = ["From Coq Require Import List ZArith String.", "Import ListNotations.", "Open Scope Z_scope.", ""]
+
+    def table(name, rows, comment):
+        out.append("(* %s *)" % comment)
+        out.append("Definition %s : list (string * Z) := [" % name)
+        out.append(";\n".join("  (%s, %d)" % (coq_string(n), int(v, 0) if isinstance(v, str) else v) for n, v in rows))
+        out.append("]%string.\n")
+    table("gen_abbrev_ids", [(n, v) for n, v, t in wr], "bitcode/writer.go const block")
+    table("gen_container_consts", [(n, v) for n, v, t in cont], "container/container.go const block")
+    table("gen_serialize_consts", [(n, v) for n, v, t in ser], "module/serialize.go const blocks (block ids, record codes)")
+    table("gen_shader_kinds", [(n, v) for n, v, t in modc if t == "ShaderKind"], "module/module.go ShaderKind")
+    table("gen_fourcc", [(n, v) for n, v in live["fourcc"]], "FourCC values computed by the compiled container package")
+    table("gen_stage_kind", sorted(live["stage_kind"].items()), "stageToContainerKind per ir.ShaderStage, computed by the compiled package")
+    # md5Transform: `x = ff(x, y, z, w, pX[k], s, 0xAC)` lines, in order
+    steps = []
+    for m in re.finditer(r"\b([abcd]) = (ff|gg|hh|ii)\(([abcd]), ([abcd]), ([abcd]), ([abcd]), pX\[(\d+)\], (\d+), (0x[0-9a-fA-F]+)\)", md5src):
+        dst, fn, a, b, c, d, k, sh, ac = m.groups()
+        if dst != a:
+            raise GenError("md5Transform: destination %s differs from first argument %s" % (dst, a))
+        want = ["abcd", "dabc", "cdab", "bcda"][len(steps) % 4]
+        if a + b + c + d != want:
+            raise GenError("md5Transform step %d: argument rotation %s, expected %s" % (len(steps), a + b + c + d, want))
+        steps.append(({"ff": 0, "gg": 1, "hh": 2, "ii": 3}[fn], int(k), int(sh), int(ac, 16)))
+    n_calls = len(re.findall(r"\b(ff|gg|hh|ii)\(", md5src))
+    if n_calls != len(steps):
+        raise GenError("md5Transform: %d round calls but %d recognised" % (n_calls, len(steps)))
+    tail = re.search(r"state\[0\] \+= a\s+state\[1\] \+= b\s+state\[2\] \+= c\s+state\[3\] \+= d", md5src)
+    if not tail:
+        raise GenError("md5Transform: final state update not recognised")
+    out.append("(* hash.go md5Transform: (round function 0=ff 1=gg 2=hh 3=ii, word index, shift, constant) *)")
+    out.append("Definition gen_md5_steps : list (Z * Z * Z * Z) := [\n" + ";\n".join("  (%d, %d, %d, %d)" % s for s in steps) + "].\n")
+    m = re.search(r"state := \[4\]uint32\{(0x[0-9a-fA-F]+), (0x[0-9a-fA-F]+), (0x[0-9a-fA-F]+), (0x[0-9a-fA-F]+)\}", retailsrc)
+    if not m:
+        raise GenError("retailMD5: initial state not recognised")
+    out.append("Definition gen_md5_init : list Z := %s.\n" % zlist([int(x, 16) for x in m.groups()]))
+    out.append("Definition gen_bypass_hash : list Z := %s.\n" % zlist([int(x, 0) for x in bypass]))
+
+    def hdr_stores(src, what):
+        rows = re.findall(r"PutUint32\(hdr\[(\d+):\], ([^\n]*?)\)\s*(?://[^\n]*)?\n", src)
+        if len(rows) != 6:
+            raise GenError("%s: expected 6 program-header stores, found %d" % (what, len(rows)))
+        return rows
+    for nm, src in (("gen_dxil_header_stores", dxilsrc), ("gen_stat_header_stores", statsrc)):
+        rows = hdr_stores(src, nm)
+        out.append("Definition %s : list (Z * string) := [\n" % nm + ";\n".join("  (%s, %s)" % (o, coq_string(e.strip())) for o, e in rows) + "]%string.\n")
+    for nm, src in (("gen_dxil_header_defs", dxilsrc), ("gen_stat_header_defs", statsrc)):
+        defs = []
+        for var in ("version", "totalSize", "wordSize", "dxilVersion"):
+            mm = re.search(r"\b%s := ([^\n]*?)\s*(?://[^\n]*)?\n" % var, src)
+            defs.append((var, mm.group(1).strip() if mm else ""))
+        out.append("Definition %s : list (string * string) := [\n" % nm + ";\n".join("  (%s, %s)" % (coq_string(a), coq_string(b)) for a, b in defs) + "]%string.\n")
+    return [write("Gen/DxilConsts.v", "\n".join(out))]
+
+
+
+# ------------------------------------------------------------------ SPIR-V writer (C02)
+
+SPV_CONST_TYPES = ["OpCode", "Capability", "Decoration", "BuiltIn", "ExecutionModel", "ExecutionMode", "StorageClass",
+                   "AddressingModel", "MemoryModel", "FunctionControl", "SelectionControl", "LoopControl", "ImageFormat"]
+
+
+def spv_consts(tools):
+    (consts,) = extract(tools, [{"kind": "consts", "file": "spirv/internal/codegen/spirv.go"}])
+    rows = []
+    for n, v, t in consts:
+        if t in SPV_CONST_TYPES:
+            rows.append((t, n, int(v)))
+        elif t in ("uint32", "") and (n.startswith(("Scope", "MemorySemantics", "GroupOperation", "GLSLstd450", "PackedVectorFormat"))
+                                      or n == "MagicNumber"):
+            rows.append(("uint32", n, int(v)))
+    if len(rows) < 400:
+        raise GenError("spirv.go: only %d SPIR-V constants found" % len(rows))
+    return rows
+
+
+def gen_spvenums(tools):
+    rows = spv_consts(tools)
+    out = ["From Coq Require Import List ZArith String.", "Import ListNotations.", "Open Scope Z_scope.", "",
+           "(* const blocks of spirv/internal/codegen/spirv.go: (Go type, name, value) *)",
+           "Definition go_consts : list (string * string * Z) := ["]
+    out.append(";\n".join("  (%s, %s, %d)" % (coq_string(t), coq_string(n), v) for t, n, v in rows))
+    out.append("]%string.\n")
+    return [write("Gen/SpvEnums.v", "\n".join(out))]
+
+
+def spv_writer_facts(tools):
+    rc, so, se = vcheck.run_tool(tools["spvextract"], [vcheck.REPO])
+    if rc != 0:
+        raise GenError("spvextract failed: " + se[-2000:])
+    d = json.loads(so)
+    for k in ("build_order", "header_order", "bound_rhs", "appends", "func_appends", "src"):
+        if k not in d or d[k] in (None, "", []):
+            raise GenError("spvextract: %s not found in writer.go/block.go" % k)
+    return d
+
+
+def gen_spvbuild(tools):
+    d = spv_writer_facts(tools)
+    out = ["From Coq Require Import List ZArith String.", "Import ListNotations.", "Open Scope string_scope.", "",
+           "(* ModuleBuilder.Build(): section slices in the order they are written *)",
+           "Definition build_order : list string := [" + "; ".join(coq_string(x) for x in d["build_order"]) + "].",
+           "(* ModuleBuilder.Build(): the five header words in the order they are written *)",
+           "Definition header_order : list string := [" + "; ".join(coq_string(x) for x in d["header_order"]) + "].",
+           "Definition bound_rhs : string := %s." % coq_string(d["bound_rhs"]),
+           "(* (method, section slice, opcode) for every append of a built instruction to a section slice *)",
+           "Definition appends : list (string * string * string) := [",
+           ";\n".join("  (%s, %s, %s)" % tuple(coq_string(x) for x in a) for a in d["appends"]), "].",
+           "(* (method, opcode) for every b.funcAppend(...) *)",
+           "Definition func_appends : list (string * string) := [",
+           ";\n".join("  (%s, %s)" % tuple(coq_string(x) for x in a) for a in d["func_appends"]), "]."]
+    for k in sorted(d["src"]):
+        out.append("Definition src_%s : string := %s." % (k.replace(".", "_"), coq_string(d["src"][k])))
+    return [write("Gen/SpvBuild.v", "\n".join(out) + "\n")]
+
+
+GENERATORS = {"lex": gen_lex, "irenums": gen_irenums, "layout": gen_layout, "spviface": gen_spviface, "dxil": gen_dxil}
 
 import c16gen  # C16: Gen/Keywords.v
 GENERATORS["keywords"] = lambda tools: c16gen.gen_keywords(sys.modules[__name__], tools)
+
+
+# ------------------------------------------------------------------ C11 diagnostics (leaf procedures)
+
+def _go_block(src, marker):
+    """Text of the Go block that starts at `marker` (which must end with '{') up to its
+    matching '}' (string, rune and raw-string literals skipped).  None when absent."""
+    a = src.find(marker)
+    if a < 0:
+        return None
+    i = a + len(marker)
+    depth = 1
+    n = len(src)
+    while i < n and depth > 0:
+        c = src[i]
+        if c == '"':
+            i += 1
+            while i < n and src[i] != '"':
+                i += 2 if src[i] == "\\" else 1
+        elif c == "'":
+            i += 1
+            while i < n and src[i] != "'":
+                i += 2 if src[i] == "\\" else 1
+        elif c == "`":
+            i += 1
+            while i < n and src[i] != "`":
+                i += 1
+        elif c == "{":
+            depth += 1
+        elif c == "}":
+            depth -= 1
+        i += 1
+    return src[a:i] if depth == 0 else None
+
+
+def _dedent(txt):
+    lines = txt.split("\n")
+    return "\n".join(l.strip() for l in lines if l.strip() != "")
+
+
+# (name in Gen/DiagTables.v, file, function, receiver, marker of the block inside it or None = whole body)
+DIAG_SNIPPETS = [
+    ("src_swizzleIndex", "wgsl/internal/lower/lower.go", "swizzleIndex", "Lowerer", None),
+    ("src_swizzlePattern", "wgsl/internal/lower/lower.go", "swizzlePattern", "Lowerer", None),
+    ("src_member_dispatch", "wgsl/internal/lower/lower.go", "lowerMember", "Lowerer", "if len(mem.Member) == 1 {"),
+    ("src_pairing_scan", "wgsl/internal/lower/lower.go", "lowerGlobalVar", "Lowerer", "for _, attr := range v.Attributes {"),
+    ("src_pairing_binding_only", "wgsl/internal/lower/lower.go", "lowerGlobalVar", "Lowerer", "if hasBinding && !hasGroup {"),
+    ("src_pairing_group_only", "wgsl/internal/lower/lower.go", "lowerGlobalVar", "Lowerer", "if hasGroup && !hasBinding {"),
+    ("src_array_size", "wgsl/internal/lower/lower.go", "resolveType", "Lowerer", "if t.Size != nil {"),
+    ("src_try_eval_uint", "wgsl/internal/lower/lower.go", "tryEvalConstantUint", "Lowerer", None),
+    ("src_workgroup_size", "wgsl/internal/lower/lower.go", "lowerFunction", "Lowerer", "if *stage == ir.StageCompute || *stage == ir.StageMesh || *stage == ir.StageTask {"),
+    ("src_entry_stage", "wgsl/internal/lower/lower.go", "entryPointStage", "Lowerer", None),
+    ("src_const_div", "wgsl/internal/lower/lower.go", "evalConstantBinaryExpr", "Lowerer", "case parser.TokenSlash:"),
+    ("src_const_assert", "wgsl/internal/lower/lower.go", "evalConstAssert", "Lowerer", None),
+    ("src_must_use", "wgsl/internal/lower/lower.go", "lowerCall", "Lowerer", "if l.funcMustUse[funcName] && l.isStatement {"),
+    ("src_arg_check", "wgsl/internal/lower/lower.go", "lowerCall", "Lowerer", "if int(funcHandle) < len(l.module.Functions) {"),
+    ("src_unknown_function", "wgsl/internal/lower/lower.go", "lowerCall", "Lowerer", "if !ok {"),
+    ("src_expect", "wgsl/internal/parser/parser.go", "expect", "Parser", None),
+    ("src_expectErr", "wgsl/internal/parser/parser.go", "expectErr", "Parser", None),
+    ("src_expectSemicolon", "wgsl/internal/parser/parser.go", "expectSemicolon", "Parser", None),
+    ("src_parse_error_pos", "wgsl/internal/parser/parser.go", "Error", "ParseError", None),
+    ("src_source_error_pos", "wgsl/internal/parser/errors.go", "Error", "SourceError", None),
+]
+
+
+def diag_snippets(tools):
+    """name -> normalised source text of the reviewed pieces of Go code (current tree)"""
+    reqs = [{"kind": "funcsrc", "file": f, "name": fn, "recv": rv} for (_n, f, fn, rv, _m) in DIAG_SNIPPETS]
+    res = extract(tools, reqs)
+    out = {}
+    for (name, f, fn, rv, marker), body in zip(DIAG_SNIPPETS, res):
+        if marker is None:
+            txt = body
+        elif marker.startswith("case "):
+            a = body.find(marker)
+            if a < 0:
+                raise GenError("%s: `%s` not found in %s" % (name, marker, fn))
+            # the two case arms `/` and `%`: up to the next-but-one `case`
+            b = body.find("case ", body.find("case ", a + 5) + 5)
+            txt = body[a:b]
+        else:
+            txt = _go_block(body, marker)
+            if txt is None:
+                raise GenError("%s: block `%s` not found in %s" % (name, marker, fn))
+        out[name] = _dedent(txt)
+    return out
+
+
+def gen_diag(tools):
+    comp, ns, irconsts, lconsts = extract(tools, [
+        {"kind": "switchmap", "file": "wgsl/internal/lower/lower.go", "name": "swizzleComponent"},
+        {"kind": "switchmap", "file": "wgsl/internal/lower/lower.go", "name": "swizzleComponentNamespace"},
+        {"kind": "consts", "file": "ir/expression.go"},
+        {"kind": "consts", "file": "wgsl/internal/lower/lower.go"},
+    ])
+    cval = {"ir." + n: int(v) for n, v, t in irconsts if t == "SwizzleComponent"}
+    nval = {n: int(v) for n, v, t in lconsts if t == "swizzleNamespace"}
+
+    def rune(src):
+        if len(src) == 3 and src[0] == "'" and src[2] == "'":
+            return ord(src[1])
+        raise GenError("swizzle switch: unexpected case label %s" % src)
+
+    rows = []
+    default_ok = None
+    for k, v in comp:
+        val, ok = [x.strip() for x in v.split(",")]
+        if k == "default":
+            default_ok = ok
+            continue
+        if ok != "true" or val not in cval:
+            raise GenError("swizzleComponent: unexpected arm %s -> %s" % (k, v))
+        rows.append((rune(k), cval[val]))
+    if default_ok != "false":
+        raise GenError("swizzleComponent: default arm is not `0, false`")
+    nrows = []
+    ndefault = None
+    for k, v in ns:
+        if v not in nval:
+            raise GenError("swizzleComponentNamespace: unknown result %s" % v)
+        if k == "default":
+            ndefault = nval[v]
+            continue
+        nrows.append((rune(k), nval[v]))
+    out = ["From Coq Require Import List ZArith String.", "Import ListNotations.", "Open Scope Z_scope.", ""]
+    out.append("(* lower.go swizzleComponent: case byte -> ir.SwizzleComponent (default: not ok) *)")
+    out.append("Definition swz_component_table : list (Z * Z) := [" + "; ".join("(%d, %d)" % r for r in rows) + "].")
+    out.append("(* lower.go swizzleComponentNamespace: case byte -> swizzleNamespace; default *)")
+    out.append("Definition swz_ns_table : list (Z * Z) := [" + "; ".join("(%d, %d)" % r for r in nrows) + "].")
+    out.append("Definition swz_ns_default : Z := %d." % (ndefault if ndefault is not None else -1))
+    out.append("")
+    out.append("(* source text (go/printer, comments dropped, indentation and blank lines removed) of the reviewed pieces *)")
+    for name, txt in diag_snippets(tools).items():
+        out.append("Definition %s : string := %s%%string." % (name, coq_string(txt)))
+    return [write("Gen/DiagTables.v", "\n".join(out) + "\n")]
+
+
+GENERATORS["diag"] = gen_diag
+
+import c12gen  # C12: Gen/BackendState.v, Gen/MapWalks.v
+GENERATORS["c12state"] = lambda tools: c12gen.generate(sys.modules[__name__], tools)
+
+
+def gen_msloptable(tools):
+    """C04 probe: one micro-program per (operator, kind, shape) compiled to MSL; template + helper bodies."""
+    import mslcorr, mslprobe
+    probes = [p for p in mslprobe.all_probes() if not p[0].startswith(("land_", "lor_"))]
+    progs = [(k, mslprobe.program(op, n)) for k, op, n in probes]
+    res = mslcorr.compile_programs(tools, progs, ["default"], want_ir=False)
+    rows = []
+    for k, op, n in probes:
+        m = (res.get(k) or {}).get("msl", {}).get("default", {})
+        if "text" not in m:
+            raise GenError("msloptable: probe %s does not compile to MSL: %s" % (k, (res.get(k) or {}).get("err") or m))
+        try:
+            t, hs = mslprobe.extract_template(m["text"], op)
+        except (mslprobe.ProbeError, mslread_error()) as e:
+            raise GenError("msloptable: cannot read back the template of probe %s: %s" % (k, e))
+        rows.append((op["key"], n, t, hs))
+    return [write("Gen/MslOpTable.v", mslprobe.table_file(rows))]
+
+
+def mslread_error():
+    import mslread
+    return mslread.OutOfFragment
+
+
+GENERATORS["msloptable"] = gen_msloptable
+
+
+import c14gen  # C14: Gen/OverrideOps.v
+GENERATORS["overrides"] = lambda tools: c14gen.generate(sys.modules[__name__], tools)
+
+GENERATORS["spvenums"] = gen_spvenums   # C02
+GENERATORS["spvbuild"] = gen_spvbuild   # C02
 
 
 def regenerate(tools, names):
